@@ -48,13 +48,19 @@ def _classes():
                          NormalDistribution, ScipyDistribution, VonMisesDistribution, WeibullDistribution)
     from virocon.distributions import LogNormalNormFitDistribution
 
+    import scipy.stats as sts
+
     class GammaDistribution(ScipyDistribution):
         scipy_dist_name = "gamma"
+
+    class GumbelDistribution(ScipyDistribution):  # the other documented declaration; a scipy law without shapes
+        scipy_dist = sts.gumbel_r
 
     return {
         "Weibull": WeibullDistribution, "LogNormal": LogNormalDistribution, "Normal": NormalDistribution,
         "LogNormalNormFit": LogNormalNormFitDistribution, "ExpWeibull": ExponentiatedWeibullDistribution,
         "GenGamma": GeneralizedGammaDistribution, "VonMises": VonMisesDistribution, "ScipyGamma": GammaDistribution,
+        "ScipyGumbel": GumbelDistribution,
     }
 
 
@@ -79,6 +85,7 @@ KINDS = {
     "GenGamma": {"m": "shape", "c": "shape", "lambda_": "invscale"},
     "VonMises": {"kappa": "shape", "mu": "angle"},  # scale fixed at 1: not a scale family
     "ScipyGamma": {"a": "shape", "loc": "loc", "scale": "scale"},
+    "ScipyGumbel": {"loc": "loc", "scale": "scale"},  # regular location-scale family without shape parameters
 }
 # families whose fit is a closed form (no optimiser involved)
 CLOSED_FORM = {"Normal", "LogNormal", "LogNormalNormFit"}
@@ -87,6 +94,8 @@ CLOSED_FORM = {"Normal", "LogNormal", "LogNormalNormFit"}
 def entry(name):
     if name == "ScipyGamma":
         return "ScipyDistribution._fit_mle[scipy_dist_name=gamma]"
+    if name == "ScipyGumbel":
+        return "ScipyDistribution._fit_mle[scipy_dist=gumbel_r]"
     return cls_of(name).__name__ + "._fit_mle"
 
 
@@ -120,6 +129,8 @@ def draw_truth(name, rng):
         return {"kappa": u(0.3, 4), "mu": u(-2, 2)}
     if name == "ScipyGamma":
         return {"a": u(2.0, 6.0), "loc": float(rng.choice([0.0, 0.5])), "scale": u(0.5, 3)}
+    if name == "ScipyGumbel":
+        return {"loc": u(1, 10), "scale": u(0.3, 2)}
     raise KeyError(name)
 
 
@@ -142,6 +153,8 @@ def draw_user_start(name, truth, rng):
         if kind == "loc":
             if name == "Normal":
                 out[p] = float(truth[p] + u(-1, 1) * truth["sigma"])
+            elif name == "ScipyGumbel":  # support = the whole line: the guess may lie on either side
+                out[p] = float(truth[p] + u(-1, 1) * truth["scale"])
             else:  # keep the start inside the support of the data: move the location to the left
                 out[p] = float(truth[p] - u(0, 0.3) * scale_ref)
     return out
@@ -168,7 +181,8 @@ def admissible(name, pars):
         return False, "non-finite parameter"
     pos = {"Weibull": ["alpha", "beta"], "LogNormal": ["sigma"], "Normal": ["sigma"],
            "LogNormalNormFit": ["mu_norm", "sigma_norm"], "ExpWeibull": ["alpha", "beta", "delta"],
-           "GenGamma": ["m", "c", "lambda_"], "VonMises": ["kappa"], "ScipyGamma": ["a", "scale"]}[name]
+           "GenGamma": ["m", "c", "lambda_"], "VonMises": ["kappa"], "ScipyGamma": ["a", "scale"],
+           "ScipyGumbel": ["scale"]}[name]
     for p in pos:
         if not vals[p] > 0:
             return False, f"{p} = {vals[p]!r} is not positive"
@@ -451,6 +465,12 @@ def ll_lines(name, pars, x):
             lines += [_t("lgamma", a, sc.gammaln(a)), _t("log", s, np.log(s))]
             lines += _tab_vec("log", z, np.log(z))
             run = ["RUN", "ll", "gamma", f(a), f(l), f(s)]
+        elif name == "ScipyGumbel":
+            l, s = (np.float64(pars[k]) for k in ("loc", "scale"))
+            z = (x - l) / s
+            lines += [_t("log", s, np.log(s))]
+            lines += _tab_vec("exp", -z, np.exp(-z))
+            run = ["RUN", "ll", "gumbel", f(l), f(s)]
         else:
             raise KeyError(name)
     return ["CLEAR"] + lines + [" ".join(run + data)]
@@ -642,7 +662,7 @@ def run_corpus(ck):
 def main(ck):
     rng = np.random.default_rng(ck.seed)
     thorough = ck.tier == "thorough"
-    ck.rule = ("(C) 8 families x parameter draws from the regular region x n x {default, user(, arg-max)} start values, "
+    ck.rule = ("(C) 9 families (7 shipped + gamma / shape-less Gumbel ScipyDistribution subclasses) x parameter draws from the regular region x n x {default, user(, arg-max)} start values, "
                "each fitted on the sample and on c*sample (median |data| and c*median within [0.05, 20]); non-trivial = "
                "the fit ran and produced parameters; (A) Lean log-likelihood vs sum(log pdf) at generating and fitted "
                "parameters; (B) closed-form estimators vs the real fit; distinct by SHA1 of the case")
